@@ -34,7 +34,7 @@ def main():
     tools = os.path.join(sysroot, "lib/rustlib/x86_64-unknown-linux-gnu/bin")
     bins = {}
     for profile, flag, sub in (("native", ["--release"], "release"), ("wrap", ["--profile", "wrap"], "wrap"), ("debug0", [], "debug")):
-        p = sh(["cargo", "+nightly", "build", "--offline", "--target-dir", TD] + flag, cwd=HARNESS, env=ENV)
+        p = sh(["cargo", "+nightly", "build", "--offline", "--target-dir", TD, "--bin", "lruverif", "--bin", "lruverif_ms", "--bin", "lruverif_tot", "--bin", "lruverif_c18"] + flag, cwd=HARNESS, env=ENV)
         if p.returncode != 0:
             print(p.stdout[-3000:])
             return 2
